@@ -65,6 +65,10 @@ def mutable_evidence(fi: FuncInfo, param: str) -> Optional[str]:
                 hit = names & {"list", "dict", "set", "bytearray", "List", "Dict"}
                 if hit:
                     return f"isinstance({param}, {sorted(hit)[0]})"
+    if param == "value" and fi.cls is not None and fi.name in ("visit_list", "visit_dict") and any(
+            isinstance(n, ast.Attribute) and n.attr == "__accept__" for n in ast.walk(fi.node)):
+        # a visitor method for a container type: once the validator it runs first has passed, `value` is a list / dict
+        return "validated as a " + fi.name[6:]
     for p in list(fi.node.args.posonlyargs) + list(fi.node.args.args) + list(fi.node.args.kwonlyargs):
         if p.arg == param and p.annotation is not None:
             t = ast.unparse(p.annotation)
@@ -413,6 +417,9 @@ def fixture_selftest(run: Run) -> None:
 
 V = "d42/validation/_validator.py"
 MUTANTS = [
+    {"name": "empty list substituted into an undeclared list is stored as is (seeded C07-L)", "rule": "NO-ALIAS-IN",
+     "edits": [("d42/substitution/_substitutor.py", "        if len(value) > 0 and all(is_ellipsis(x) for x in value):\n            raise SubstitutionError(\"Can't substitute all ...\")\n",
+                "        if len(value) > 0 and all(is_ellipsis(x) for x in value):\n            raise SubstitutionError(\"Can't substitute all ...\")\n\n        if len(value) == 0 and (schema.props.elements is Nil) and (schema.props.type is Nil):\n            return schema.__class__(schema.props.update(elements=value))\n")]},
     {"name": "validator looks dict members up by exception instead of a membership test", "rule": "NO-WRITE",
      "edits": [("d42/validation/_validator.py", "            if key in value:\n                nested_path = deepcopy(path)[key]\n                res = val.__accept__(self, value=value[key], path=nested_path, **kwargs)\n                result.add_errors(res.get_errors())\n            else:\n                if not is_optional:\n                    result.add_error(MissingKeyValidationError(path, value, key))",
                 "            try:\n                member = value[key]\n            except KeyError:\n                if not is_optional:\n                    result.add_error(MissingKeyValidationError(path, value, key))\n            else:\n                nested_path = deepcopy(path)[key]\n                res = val.__accept__(self, value=member, path=nested_path, **kwargs)\n                result.add_errors(res.get_errors())")]},
